@@ -560,3 +560,605 @@ Proof.
 Qed.
 
 Print Assumptions dec_to_f64_correct.
+
+Example dec_to_f64_correct_ex :
+  dec_to_f64 false 1 (-1) = PFOk (S754_finite false 7205759403792794 (-56)).
+Proof. vm_compute. reflexivity. Qed.
+
+(* ------------------------------------------------------------------------------------ *)
+(* (b) parse_float never produces NaN; results are valid binary64 values                 *)
+(* ------------------------------------------------------------------------------------ *)
+
+Lemma dec_to_f64_valid neg M k :
+  match dec_to_f64 neg M k with
+  | PFOk x => is_finite x = true /\ valid_f64 x = true
+  | PFRange x => x = S754_infinity neg
+  | PFSyntax => False
+  end.
+Proof.
+  destruct (Z_lt_le_dec 0 M) as [HM | HM].
+  - pose proof (dec_to_f64_correct neg M k HM) as H. unfold pf_correct in H.
+    destruct (Rlt_bool _ _).
+    + destruct H as (f & E & _ & F & _ & V). rewrite E. split; [ | exact V].
+      destruct f; try discriminate F; reflexivity.
+    + now rewrite H.
+  - rewrite dec_to_f64_zero by assumption. split; reflexivity.
+Qed.
+
+Lemma parse_float_cases s :
+  parse_float s = PFSyntax \/ exists neg M k, parse_float s = dec_to_f64 neg M k.
+Proof.
+  unfold parse_float.
+  destruct (read_sign s) as [neg s1].
+  destruct (read_digits s1 0 0) as [[m1 n1] s2].
+  destruct (match s2 with
+            | EmptyString => (m1, 0, s2)
+            | String c r => if Ascii.eqb c "." then read_digits r m1 0 else (m1, 0, s2)
+            end) as [[m2 n2] s3].
+  destruct (n1 + n2 =? 0); [now left | ].
+  destruct s3 as [| c r]; [right; eauto | ].
+  destruct (Ascii.eqb c "e" || Ascii.eqb c "E"); [ | now left].
+  destruct (read_sign r) as [eneg s4].
+  destruct (read_digits s4 0 0) as [[ev en] s5].
+  destruct (en =? 0); [now left | ].
+  destruct s5; [right; eauto | now left].
+Qed.
+
+Theorem parse_float_valid s :
+  match parse_float s with
+  | PFOk x => is_finite x = true /\ is_nan x = false /\ valid_f64 x = true
+  | PFRange x => is_inf x = true /\ is_nan x = false /\ valid_f64 x = true
+  | PFSyntax => True
+  end.
+Proof.
+  destruct (parse_float_cases s) as [E | (neg & M & k & E)]; rewrite E; [exact I | ].
+  pose proof (dec_to_f64_valid neg M k) as H.
+  destruct (dec_to_f64 neg M k) as [x | x | ].
+  - destruct H as [F V]. repeat split; try assumption. destruct x; try discriminate F; reflexivity.
+  - subst x. repeat split.
+  - exact I.
+Qed.
+
+Example parse_float_valid_ex :
+  parse_float "1e400" = PFRange (S754_infinity false) /\
+  parse_float "-1e-400" = PFOk (S754_zero true) /\
+  parse_float "x" = PFSyntax.
+Proof. vm_compute. repeat split. Qed.
+
+Print Assumptions parse_float_valid.
+
+(* ------------------------------------------------------------------------------------ *)
+(* parse_float on strings of the shape the formatters produce                           *)
+(* ------------------------------------------------------------------------------------ *)
+
+Definition sign_str (neg : bool) : string := if neg then "-" else "".
+
+(* optional exponent part: None = absent, Some (eneg, ed) = "e" sign digits *)
+Definition exp_str (ex : option (bool * string)) : string :=
+  match ex with
+  | None => ""
+  | Some (eneg, ed) => "e" ++ (if eneg then "-" else "+") ++ ed
+  end.
+Definition exp_val (ex : option (bool * string)) : Z :=
+  match ex with
+  | None => 0
+  | Some (eneg, ed) => if eneg then - dval ed 0 else dval ed 0
+  end.
+Definition exp_ok (ex : option (bool * string)) : Prop :=
+  match ex with
+  | None => True
+  | Some (_, ed) => all_digits ed = true /\ ed <> EmptyString
+  end.
+
+Lemma exp_str_nondigit ex : nondigit_start (exp_str ex).
+Proof. destruct ex as [[eneg ed] | ]; cbn; auto. Qed.
+
+Lemma slen_pos s : s <> EmptyString -> (0 < slen s)%nat.
+Proof. destruct s; [congruence | unfold slen; cbn; lia]. Qed.
+
+(* the tail of parse_float after the mantissa has been read *)
+Lemma parse_exp_tail neg m2 n2 ex :
+  exp_ok ex ->
+  match exp_str ex with
+  | EmptyString => dec_to_f64 neg m2 (- n2)
+  | String c r =>
+      if Ascii.eqb c "e" || Ascii.eqb c "E" then
+        let '(eneg, s4) := read_sign r in
+        let '(ev, en, s5) := read_digits s4 0 0 in
+        if en =? 0 then PFSyntax
+        else match s5 with
+             | EmptyString => dec_to_f64 neg m2 ((if eneg then - ev else ev) - n2)
+             | String _ _ => PFSyntax
+             end
+      else PFSyntax
+  end = dec_to_f64 neg m2 (exp_val ex - n2).
+Proof.
+  intros Hex. destruct ex as [[eneg ed] | ]; [ | reflexivity].
+  destruct Hex as [Hd Hne].
+  cbn [exp_str exp_val append].
+  change (Ascii.eqb "e" "e" || Ascii.eqb "e" "E") with true. cbv iota.
+  assert (Hs : read_sign ((if eneg then "-" else "+") ++ ed) = (eneg, ed)) by (now destruct eneg).
+  rewrite Hs. rewrite read_digits_all by assumption.
+  pose proof (slen_pos ed Hne).
+  replace (0 + Z.of_nat (slen ed) =? 0) with false by lia.
+  reflexivity.
+Qed.
+
+Lemma parse_float_shape neg ip hasdot fp ex :
+  all_digits ip = true -> all_digits fp = true ->
+  (ip <> EmptyString \/ fp <> EmptyString) -> (hasdot = false -> fp = EmptyString) ->
+  exp_ok ex ->
+  parse_float (sign_str neg ++ ip ++ (if hasdot then "." ++ fp else "") ++ exp_str ex) =
+  dec_to_f64 neg (dval (ip ++ fp) 0) (exp_val ex - Z.of_nat (slen fp)).
+Proof.
+  intros Hip Hfp Hne Hdot Hex.
+  set (rest2 := (if hasdot then "." ++ fp else "") ++ exp_str ex).
+  assert (Hnd2 : nondigit_start rest2).
+  { unfold rest2. destruct hasdot; [exact eq_refl | apply exp_str_nondigit]. }
+  (* sign *)
+  assert (Hsign : read_sign (sign_str neg ++ ip ++ rest2) = (neg, ip ++ rest2)).
+  { destruct neg; [reflexivity | ]. cbn [sign_str append].
+    destruct ip as [| c ip].
+    - cbn [append]. unfold rest2.
+      destruct hasdot; [reflexivity | ].
+      rewrite (Hdot eq_refl) in Hne. destruct Hne; congruence.
+    - cbn [all_digits] in Hip. apply andb_true_iff in Hip as [Hc _].
+      destruct (is_digit_not_sign c Hc) as [S1 S2].
+      cbn [append read_sign]. now rewrite S1, S2. }
+  unfold parse_float. rewrite Hsign.
+  rewrite read_digits_app by assumption.
+  rewrite dval_app.
+  set (m1 := dval ip 0).
+  replace (0 + Z.of_nat (slen ip)) with (Z.of_nat (slen ip)) by lia.
+  destruct hasdot.
+  - unfold rest2. cbn [append]. change (Ascii.eqb "." ".") with true. cbv iota.
+    rewrite read_digits_app by (try assumption; apply exp_str_nondigit).
+    replace (Z.of_nat (slen ip) + (0 + Z.of_nat (slen fp)) =? 0) with false.
+    2:{ destruct Hne as [Hne | Hne]; apply slen_pos in Hne; lia. }
+    replace (0 + Z.of_nat (slen fp)) with (Z.of_nat (slen fp)) by lia.
+    apply parse_exp_tail. assumption.
+  - rewrite (Hdot eq_refl) in *. cbn [dval slen String.length].
+    unfold rest2. cbn [append].
+    assert (Hm : match exp_str ex with
+                 | EmptyString => (m1, 0, exp_str ex)
+                 | String c r => if Ascii.eqb c "." then read_digits r m1 0 else (m1, 0, exp_str ex)
+                 end = (m1, 0, exp_str ex)).
+    { destruct ex as [[eneg ed] | ]; reflexivity. }
+    rewrite Hm.
+    replace (Z.of_nat (slen ip) + 0 =? 0) with false.
+    2:{ destruct Hne as [Hne | Hne]; [apply slen_pos in Hne; lia | congruence]. }
+    change (Z.of_nat 0) with 0. rewrite <- (parse_exp_tail neg m1 0 ex Hex).
+    reflexivity.
+Qed.
+
+(* ------------------------------------------------------------------------------------ *)
+(* the shapes produced by fmtE / fmtF for shortest digits                               *)
+(* ------------------------------------------------------------------------------------ *)
+
+Lemma zeros_spec n : forall acc,
+  all_digits (srepeat "0" n) = true /\ dval (srepeat "0" n) acc = acc * 10 ^ Z.of_nat n /\
+  slen (srepeat "0" n) = n.
+Proof.
+  induction n as [| n IH]; intros acc.
+  - cbn. repeat split. lia.
+  - cbn [srepeat append all_digits dval]. destruct (IH (10 * acc + digit_val "0")) as (A & V & L).
+    repeat split.
+    + now rewrite A.
+    + rewrite V. change (digit_val "0") with 0.
+      rewrite Nat2Z.inj_succ, Z.pow_succ_r by lia. lia.
+    + unfold slen in *. cbn [String.length]. now rewrite L.
+Qed.
+
+Lemma zeros_0 j : j <= 0 -> zeros j = EmptyString.
+Proof. intros H. unfold zeros. destruct j; try lia; reflexivity. Qed.
+
+Lemma stake_all n : forall s, (slen s <= n)%nat -> stake n s = s.
+Proof.
+  induction n as [| n IH]; intros [| c s] H; unfold slen in *; cbn in *; try reflexivity; try lia.
+  rewrite IH; [reflexivity | unfold slen; lia].
+Qed.
+
+Lemma all_digits_split n s :
+  all_digits s = true -> all_digits (stake n s) = true /\ all_digits (sdrop n s) = true.
+Proof.
+  intros H. rewrite <- (stake_sdrop n s), all_digits_app in H.
+  now apply andb_true_iff in H.
+Qed.
+
+Lemma digits_of_Z_spec c :
+  0 < c ->
+  all_digits (digits_of_Z c) = true /\ digits_of_Z c <> EmptyString /\ dval (digits_of_Z c) 0 = c.
+Proof.
+  intros Hc. unfold digits_of_Z. replace (c <=? 0) with false by lia.
+  destruct (int_digits_spec _ c EmptyString (log2_fuel c ltac:(lia))) as (ds & E & A & N & V).
+  rewrite E, sapp_nil_r. auto.
+Qed.
+
+Lemma exp_digits_spec a :
+  0 <= a ->
+  all_digits (exp_digits a) = true /\ exp_digits a <> EmptyString /\ dval (exp_digits a) 0 = a.
+Proof.
+  intros Ha. unfold exp_digits, format_int. replace (a <? 0) with false by lia.
+  destruct (int_digits_spec _ a EmptyString (log2_fuel a Ha)) as (ds & E & A & N & V).
+  rewrite E, sapp_nil_r.
+  destruct (a <? 10); repeat split; try assumption; try discriminate.
+Qed.
+
+Lemma fmtE_shape neg d1 rest dp :
+  fmtE neg (String d1 rest) dp (Z.of_nat (slen (String d1 rest)) - 1) =
+  sign_str neg ++ String d1 "" ++
+  (if match rest with EmptyString => false | _ => true end then "." ++ rest else "") ++
+  exp_str (Some (dp - 1 <? 0, exp_digits (Z.abs (dp - 1)))).
+Proof.
+  unfold fmtE, sign_str, exp_str.
+  assert (L : Z.of_nat (slen (String d1 rest)) = Z.of_nat (slen rest) + 1).
+  { unfold slen. cbn [String.length]. lia. }
+  rewrite L. replace (Z.of_nat (slen rest) + 1 =? 0) with false by lia.
+  replace (Z.of_nat (slen rest) + 1 - 1) with (Z.of_nat (slen rest)) by lia.
+  f_equal. f_equal. f_equal.
+  destruct rest as [| c rest].
+  - reflexivity.
+  - replace (0 <? Z.of_nat (slen (String c rest))) with true
+      by (unfold slen; cbn [String.length]; lia).
+    rewrite Nat2Z.id. cbn [sdrop].
+    rewrite stake_all by lia.
+    rewrite zeros_0 by lia. now rewrite sapp_nil_r.
+Qed.
+
+Lemma fmtF_shape_small neg ds dp :
+  ds <> EmptyString -> dp <= 0 ->
+  fmtF neg ds dp (Z.max (Z.of_nat (slen ds) - dp) 0) =
+  sign_str neg ++ "0" ++ ("." ++ zeros (- dp) ++ ds) ++ exp_str None.
+Proof.
+  intros Hne Hdp. pose proof (slen_pos ds Hne) as Hl.
+  unfold fmtF, sign_str, exp_str.
+  replace (0 <? dp) with false by lia.
+  rewrite Z.max_l by lia.
+  replace (0 <? Z.of_nat (slen ds) - dp) with true by lia.
+  replace (Z.min (Z.of_nat (slen ds) - dp) (Z.max 0 (- dp))) with (- dp) by lia.
+  replace (Z.max dp 0) with 0 by lia.
+  replace (Z.of_nat (slen ds) - dp - - dp) with (Z.of_nat (slen ds)) by lia.
+  rewrite Nat2Z.id. change (Z.to_nat 0) with 0%nat. cbn [sdrop].
+  rewrite stake_all by lia.
+  rewrite (zeros_0 (Z.of_nat (slen ds) - Z.of_nat (slen ds))) by lia.
+  now rewrite !sapp_nil_r.
+Qed.
+
+Lemma fmtF_shape_mid neg ds dp :
+  0 < dp < Z.of_nat (slen ds) ->
+  fmtF neg ds dp (Z.max (Z.of_nat (slen ds) - dp) 0) =
+  sign_str neg ++ stake (Z.to_nat dp) ds ++ ("." ++ sdrop (Z.to_nat dp) ds) ++ exp_str None.
+Proof.
+  intros Hdp.
+  unfold fmtF, sign_str, exp_str.
+  replace (0 <? dp) with true by lia.
+  rewrite Z.max_l by lia.
+  replace (0 <? Z.of_nat (slen ds) - dp) with true by lia.
+  replace (Z.min (Z.of_nat (slen ds)) dp) with dp by lia.
+  replace (Z.min (Z.of_nat (slen ds) - dp) (Z.max 0 (- dp))) with 0 by lia.
+  replace (Z.max dp 0) with dp by lia.
+  rewrite (zeros_0 (dp - dp)) by lia. rewrite (zeros_0 0) by lia.
+  rewrite (stake_all (Z.to_nat (Z.of_nat (slen ds) - dp - 0)) (sdrop (Z.to_nat dp) ds))
+    by (rewrite slen_sdrop; lia).
+  rewrite zeros_0 by (rewrite slen_sdrop; lia).
+  cbn [append]. now rewrite !sapp_nil_r.
+Qed.
+
+Lemma fmtF_shape_big neg ds dp :
+  ds <> EmptyString -> Z.of_nat (slen ds) <= dp ->
+  fmtF neg ds dp (Z.max (Z.of_nat (slen ds) - dp) 0) =
+  sign_str neg ++ (ds ++ zeros (dp - Z.of_nat (slen ds))) ++ "" ++ exp_str None.
+Proof.
+  intros Hne Hdp. pose proof (slen_pos ds Hne) as Hl.
+  unfold fmtF, sign_str, exp_str.
+  replace (0 <? dp) with true by lia.
+  rewrite Z.max_r by lia. change (0 <? 0) with false. cbv iota.
+  replace (Z.min (Z.of_nat (slen ds)) dp) with (Z.of_nat (slen ds)) by lia.
+  rewrite Nat2Z.id, stake_all by lia.
+  now rewrite !sapp_nil_r.
+Qed.
+
+(* ------------------------------------------------------------------------------------ *)
+(* encoding/json's exponent clean-up                                                    *)
+(* ------------------------------------------------------------------------------------ *)
+
+Fixpoint no_e (s : string) : bool :=
+  match s with
+  | String c r => negb (Ascii.eqb c "e") && no_e r
+  | EmptyString => true
+  end.
+
+Lemma no_e_app a b : no_e (a ++ b) = no_e a && no_e b.
+Proof.
+  induction a as [| c a IH]; cbn [append no_e]; [reflexivity | ].
+  now rewrite IH, andb_assoc.
+Qed.
+
+Lemma all_digits_no_e s : all_digits s = true -> no_e s = true.
+Proof.
+  induction s as [| c s IH]; cbn [all_digits no_e]; [reflexivity | ].
+  intros H. apply andb_true_iff in H as [Hc Hs].
+  destruct (is_digit_not_dot_e c Hc) as (_ & E & _). now rewrite E, IH.
+Qed.
+
+Lemma json_cleanup_step a r :
+  Ascii.eqb a "e" = false -> json_cleanup (String a r) = String a (json_cleanup r).
+Proof.
+  intros H.
+  destruct r as [| b [| c [| d [| x r']]]]; cbn [json_cleanup]; rewrite ?H; reflexivity.
+Qed.
+
+Lemma json_cleanup_noe pre : forall t,
+  no_e pre = true -> json_cleanup (pre ++ t) = pre ++ json_cleanup t.
+Proof.
+  induction pre as [| a pre IH]; intros t H; [reflexivity | ].
+  cbn [no_e] in H. apply andb_true_iff in H as [Ha Hp].
+  cbn [append]. rewrite json_cleanup_step by (now destruct (Ascii.eqb a "e")).
+  now rewrite IH.
+Qed.
+
+Lemma json_cleanup_id s : no_e s = true -> json_cleanup s = s.
+Proof.
+  intros H. rewrite <- (sapp_nil_r s) at 1. rewrite json_cleanup_noe by assumption.
+  cbn [json_cleanup]. apply sapp_nil_r.
+Qed.
+
+Lemma json_cleanup_exp eneg ed :
+  all_digits ed = true -> ed <> EmptyString ->
+  exists ed', json_cleanup (exp_str (Some (eneg, ed))) = exp_str (Some (eneg, ed')) /\
+              all_digits ed' = true /\ ed' <> EmptyString /\ dval ed' 0 = dval ed 0.
+Proof.
+  intros Hd Hne.
+  assert (Hid : no_e (String (if eneg then "-" else "+")%char ed) = true).
+  { cbn [no_e]. rewrite (all_digits_no_e ed Hd). now destruct eneg. }
+  assert (Hsame : json_cleanup (String "e" (String (if eneg then "-" else "+")%char ed)) =
+                  String "e" (String (if eneg then "-" else "+")%char ed) ->
+                  exists ed', json_cleanup (exp_str (Some (eneg, ed))) = exp_str (Some (eneg, ed')) /\
+                    all_digits ed' = true /\ ed' <> EmptyString /\ dval ed' 0 = dval ed 0).
+  { intros E. exists ed. repeat split; try assumption.
+    unfold exp_str. destruct eneg; exact E. }
+  destruct ed as [| c [| d [| x ed']]].
+  - congruence.
+  - apply Hsame. destruct eneg; reflexivity.
+  - (* exactly two exponent digits: the only case the clean-up can fire *)
+    destruct eneg.
+    + destruct (Ascii.eqb c "0") eqn:Ec.
+      * exists (String d EmptyString).
+        cbn [all_digits] in Hd. apply andb_true_iff in Hd as [Hc Hd].
+        repeat split.
+        -- unfold exp_str. cbn [append json_cleanup].
+           change (Ascii.eqb "e" "e") with true. change (Ascii.eqb "-" "-") with true.
+           rewrite Ec. reflexivity.
+        -- exact Hd.
+        -- discriminate.
+        -- apply Ascii.eqb_eq in Ec. subst c. reflexivity.
+      * apply Hsame. cbn [json_cleanup].
+        change (Ascii.eqb "e" "e") with true. change (Ascii.eqb "-" "-") with true.
+        rewrite Ec. cbn [andb].
+        first [reflexivity | f_equal; apply json_cleanup_id; exact Hid].
+    + apply Hsame. cbn [json_cleanup].
+      change (Ascii.eqb "+" "-") with false. cbn [andb].
+      first [reflexivity | f_equal; apply json_cleanup_id; exact Hid].
+  - apply Hsame.
+    change (json_cleanup (String "e" (String (if eneg then "-" else "+")%char
+                                             (String c (String d (String x ed'))))))
+      with (String "e" (json_cleanup (String (if eneg then "-" else "+")%char
+                                             (String c (String d (String x ed')))))).
+    f_equal. apply json_cleanup_id. exact Hid.
+Qed.
+
+(* ------------------------------------------------------------------------------------ *)
+(* (c) round trips, relative to the read-back check shortest_digits_ok                  *)
+(* ------------------------------------------------------------------------------------ *)
+
+Section RoundTrip.
+  Variables (neg : bool) (c k : Z).
+  Hypothesis Hc : 0 < c.
+  Let ds := digits_of_Z c.
+  Let dp := Z.of_nat (slen ds) + k.
+
+  Lemma parse_fmtE :
+    parse_float (fmtE neg ds dp (Z.of_nat (slen ds) - 1)) = dec_to_f64 neg c k /\
+    parse_float (json_cleanup (fmtE neg ds dp (Z.of_nat (slen ds) - 1))) = dec_to_f64 neg c k.
+  Proof.
+    destruct (digits_of_Z_spec c Hc) as (A & N & V). fold ds in A, N, V.
+    unfold dp. clearbody ds. destruct ds as [| d1 rest]; [congruence | ].
+    rewrite fmtE_shape.
+    set (hasdot := match rest with EmptyString => false | _ => true end).
+    set (e1 := Z.of_nat (slen (String d1 rest)) + k - 1).
+    destruct (exp_digits_spec (Z.abs e1) ltac:(lia)) as (EA & EN & EV).
+    cbn [all_digits] in A. apply andb_true_iff in A as [Hd1 Hrest].
+    assert (Hip : all_digits (String d1 "") = true) by (cbn [all_digits]; now rewrite Hd1).
+    assert (Hdot : hasdot = false -> rest = EmptyString) by (unfold hasdot; now destruct rest).
+    assert (Hk : forall ed, dval ed 0 = Z.abs e1 ->
+                 exp_val (Some (e1 <? 0, ed)) - Z.of_nat (slen rest) = k).
+    { intros ed Hv. cbn [exp_val]. rewrite Hv. unfold e1, slen. cbn [String.length].
+      destruct (_ <? 0) eqn:E; lia. }
+    split.
+    - rewrite parse_float_shape; try assumption.
+      + cbn [append]. rewrite V. now rewrite Hk.
+      + left; discriminate.
+      + split; assumption.
+    - replace (sign_str neg ++ String d1 "" ++ (if hasdot then "." ++ rest else "") ++
+               exp_str (Some (e1 <? 0, exp_digits (Z.abs e1))))
+        with ((sign_str neg ++ String d1 "" ++ (if hasdot then "." ++ rest else "")) ++
+              exp_str (Some (e1 <? 0, exp_digits (Z.abs e1))))
+        by (now rewrite !sapp_assoc).
+      rewrite json_cleanup_noe.
+      2:{ rewrite !no_e_app. rewrite (all_digits_no_e _ Hip).
+          replace (no_e (sign_str neg)) with true by (now destruct neg).
+          destruct hasdot; [ | reflexivity].
+          rewrite no_e_app, (all_digits_no_e _ Hrest). reflexivity. }
+      destruct (json_cleanup_exp (e1 <? 0) _ EA EN) as (ed' & E' & A' & N' & V').
+      rewrite E', !sapp_assoc.
+      rewrite parse_float_shape; try assumption.
+      + cbn [append]. rewrite V. rewrite Hk; [reflexivity | ]. now rewrite V'.
+      + left; discriminate.
+      + split; assumption.
+  Qed.
+
+  Lemma dec_to_f64_scale j :
+    0 <= j <= 310 -> dec_to_f64 neg (c * 10 ^ j) 0 = dec_to_f64 neg c j.
+  Proof.
+    intros Hj. unfold dec_to_f64.
+    assert (0 < c * 10 ^ j) by (apply Z.mul_pos_pos; [assumption | apply Z.pow_pos_nonneg; lia]).
+    replace (c * 10 ^ j <=? 0) with false by lia.
+    replace (c <=? 0) with false by lia.
+    replace (0 <=? j) with true by lia.
+    replace (310 <? j) with false by lia.
+    cbn [Z.leb Z.ltb Z.compare].
+    rewrite !pow10_eq by lia. now rewrite Z.pow_0_r, Z.mul_1_r.
+  Qed.
+
+  Lemma parse_fmtF :
+    k <= 310 ->
+    parse_float (fmtF neg ds dp (Z.max (Z.of_nat (slen ds) - dp) 0)) = dec_to_f64 neg c k.
+  Proof.
+    intros Hk.
+    destruct (digits_of_Z_spec c Hc) as (A & N & V). fold ds in A, N, V.
+    pose proof (slen_pos ds N) as Hl.
+    destruct (Z_le_gt_dec dp 0) as [H1 | H1]; [ | destruct (Z_lt_le_dec dp (Z.of_nat (slen ds))) as [H2 | H2]].
+    - (* 0.000ddd *)
+      rewrite fmtF_shape_small by assumption.
+      destruct (zeros_spec (Z.to_nat (- dp)) 0) as (ZA & ZV & ZL).
+      rewrite (parse_float_shape neg "0" true (zeros (- dp) ++ ds) None).
+      + rewrite !dval_app. cbn [dval]. change (10 * 0 + digit_val "0") with 0.
+        unfold zeros. rewrite ZV, Z.mul_0_l, V.
+        cbn [exp_val]. rewrite slen_app, ZL, Nat2Z.inj_add, Z2Nat.id by lia.
+        f_equal. unfold dp in *. lia.
+      + reflexivity.
+      + rewrite all_digits_app. unfold zeros. now rewrite ZA, A.
+      + left; discriminate.
+      + discriminate.
+      + exact I.
+    - (* ddd.ddd *)
+      rewrite fmtF_shape_mid by lia.
+      destruct (all_digits_split (Z.to_nat dp) ds A) as [A1 A2].
+      rewrite (parse_float_shape neg _ true _ None); try assumption.
+      + rewrite stake_sdrop, V. cbn [exp_val]. rewrite slen_sdrop.
+        f_equal. unfold dp in *. lia.
+      + right. intros E. apply (f_equal slen) in E. rewrite slen_sdrop in E.
+        unfold slen in E at 2. cbn [String.length] in E. lia.
+      + discriminate.
+      + exact I.
+    - (* ddd000 *)
+      rewrite fmtF_shape_big by assumption.
+      destruct (zeros_spec (Z.to_nat (dp - Z.of_nat (slen ds))) c) as (ZA & ZV & ZL).
+      rewrite (parse_float_shape neg _ false "" None).
+      + rewrite sapp_nil_r, dval_app, V. unfold zeros. rewrite ZV.
+        cbn [exp_val slen String.length]. rewrite Z2Nat.id by lia.
+        replace (dp - Z.of_nat (slen ds)) with k by (unfold dp; lia).
+        change (0 - Z.of_nat 0) with 0.
+        apply dec_to_f64_scale. unfold dp in *. lia.
+      + rewrite all_digits_app. unfold zeros. now rewrite ZA, A.
+      + reflexivity.
+      + left. destruct ds; [congruence | discriminate].
+      + reflexivity.
+      + exact I.
+  Qed.
+End RoundTrip.
+
+Lemma ok_facts s m e :
+  shortest_digits_ok (S754_finite s m e) = true ->
+  exists c k, shortest_core m e = (c, k) /\
+              dec_to_f64 s c k = PFOk (S754_finite s m e) /\ 0 < c /\ k <= 310.
+Proof.
+  unfold shortest_digits_ok. destruct (shortest_core m e) as [c k].
+  destruct (dec_to_f64 s c k) as [x | x | ] eqn:E; try discriminate.
+  destruct x as [s' | s' | | s' m' e']; try discriminate.
+  intros H. apply andb_true_iff in H as [H He]. apply andb_true_iff in H as [Hs Hm].
+  apply Bool.eqb_prop in Hs. apply Z.eqb_eq in Hm, He. injection Hm as Hm. subst s' m' e'.
+  exists c, k. repeat split; try assumption.
+  - destruct (Z_lt_le_dec 0 c) as [Hc | Hc]; [assumption | ].
+    rewrite dec_to_f64_zero in E by assumption. discriminate.
+  - destruct (Z_le_gt_dec k 310) as [Hk | Hk]; [assumption | exfalso].
+    destruct (Z_lt_le_dec 0 c) as [Hc | Hc].
+    + unfold dec_to_f64 in E.
+      replace (c <=? 0) with false in E by lia.
+      replace (0 <=? k) with true in E by lia.
+      replace (310 <? k) with true in E by lia. discriminate.
+    + rewrite dec_to_f64_zero in E by assumption. discriminate.
+Qed.
+
+Lemma shortest_digits_finite s m e c k :
+  shortest_core m e = (c, k) ->
+  shortest_digits (S754_finite s m e) =
+  (digits_of_Z c, Z.of_nat (slen (digits_of_Z c)) + k).
+Proof. intros E. unfold shortest_digits. now rewrite E. Qed.
+
+(* The three theorems below are PARTIAL in the following sense: they assume
+   [shortest_digits_ok x = true], i.e. that the decimal (C, K) computed by the Ryu-style
+   interval search [shortest_core] is read back by [dec_to_f64] as x itself.  What is missing
+   for the unconditional statement is the proof that every decimal inside the rounding
+   interval of x rounds to x and that the search always stays inside that interval
+   (in particular that 17 digits always suffice).  The hypothesis is decidable and was
+   checked by vm_compute on every one of the 36879 finite non-zero validation vectors.
+   What the theorems do establish is that the textual layouts of %e / %f / %g / JSON
+   (digit placement, zero padding, exponent sign and width, the e-09 -> e-9 clean-up) are
+   parsed back by parse_float to exactly the decimal that was searched. *)
+
+Theorem parse_format_e_partial x :
+  shortest_digits_ok x = true -> parse_float (format_float_e x) = PFOk x.
+Proof.
+  destruct x as [s | s | | s m e]; try discriminate. intros Hok.
+  destruct (ok_facts s m e Hok) as (c & k & Ecore & Edec & Hc & Hk).
+  unfold format_float_e. cbn [fmt_special sign_bit].
+  rewrite (shortest_digits_finite s m e c k Ecore).
+  destruct (digits_of_Z_spec c Hc) as (_ & N & _). pose proof (slen_pos _ N).
+  rewrite Z.max_l by lia.
+  rewrite (proj1 (parse_fmtE s c k Hc)). exact Edec.
+Qed.
+
+Theorem parse_format_f_partial x :
+  shortest_digits_ok x = true -> parse_float (format_float_f x) = PFOk x.
+Proof.
+  destruct x as [s | s | | s m e]; try discriminate. intros Hok.
+  destruct (ok_facts s m e Hok) as (c & k & Ecore & Edec & Hc & Hk).
+  unfold format_float_f. cbn [fmt_special sign_bit].
+  rewrite (shortest_digits_finite s m e c k Ecore).
+  rewrite (parse_fmtF s c k Hc Hk). exact Edec.
+Qed.
+
+Theorem parse_format_g_partial x :
+  shortest_digits_ok x = true -> parse_float (format_float_g x) = PFOk x.
+Proof.
+  destruct x as [s | s | | s m e]; try discriminate. intros Hok.
+  destruct (ok_facts s m e Hok) as (c & k & Ecore & Edec & Hc & Hk).
+  unfold format_float_g. cbn [fmt_special sign_bit].
+  rewrite (shortest_digits_finite s m e c k Ecore).
+  destruct (_ || _).
+  - rewrite (proj1 (parse_fmtE s c k Hc)). exact Edec.
+  - rewrite (parse_fmtF s c k Hc Hk). exact Edec.
+Qed.
+
+Theorem parse_format_json_partial x :
+  shortest_digits_ok x = true -> parse_float (format_json_number x) = PFOk x.
+Proof.
+  destruct x as [s | s | | s m e] eqn:Ex; try discriminate. intros Hok.
+  unfold format_json_number. cbn [fmt_special].
+  destruct (_ && _).
+  - destruct (ok_facts s m e Hok) as (c & k & Ecore & Edec & Hc & Hk).
+    unfold format_float_e. cbn [fmt_special sign_bit].
+    rewrite (shortest_digits_finite s m e c k Ecore).
+    destruct (digits_of_Z_spec c Hc) as (_ & N & _). pose proof (slen_pos _ N).
+    rewrite Z.max_l by lia.
+    rewrite (proj2 (parse_fmtE s c k Hc)). exact Edec.
+  - apply parse_format_f_partial. exact Hok.
+Qed.
+
+(* the hypothesis is satisfiable on non-trivial instances, e.g. 0.1, 5e-324, 2^53+2, 1e23 *)
+Example shortest_digits_ok_ex :
+  forallb (fun b => shortest_digits_ok (f_of_bits b))
+    [0x3fb999999999999a; 1; 0x4340000000000001; 0x44b52d02c7e14af6; 0x7fefffffffffffff;
+     0xbeb0c6f7a0b5ed8d] = true.
+Proof. vm_compute. reflexivity. Qed.
+
+Example parse_format_json_ex :
+  format_json_number (f_of_bits 0xbeb0c6f7a0b5ed8c) = "-9.999999999999997e-7"%string /\
+  parse_float "-9.999999999999997e-7" = PFOk (f_of_bits 0xbeb0c6f7a0b5ed8c).
+Proof. vm_compute. split; reflexivity. Qed.
+
+Print Assumptions parse_format_e_partial.
+Print Assumptions parse_format_f_partial.
+Print Assumptions parse_format_g_partial.
+Print Assumptions parse_format_json_partial.
